@@ -237,10 +237,26 @@ def split_cases(lines):
     return cases
 
 
+HARNESS_RACE_BIN = os.path.join(BUILD, "harness-race")
+USE_RACE = {"on": False}
+
+
+def build_race_harness(log):
+    rc, out = sh(["go", "build", "-race", "-tags", "verif", "-o", HARNESS_RACE_BIN, "."],
+                 cwd=os.path.join(ROOT, "harness"), env=goenv(), timeout=1800)
+    log.append(("harness-race-build", rc, out[-3000:]))
+    return rc == 0
+
+
 def run_impl(stream, ops_path, tag, timeout=1500):
     out, res = ops_path + f".{tag}.impl", ops_path + f".{tag}.resolved"
     env = goenv()
     env.setdefault("GOMEMLIMIT", "6GiB")
+    if USE_RACE["on"]:
+        # the real code under the Go race detector: a reported race ends the process (a crash with the report)
+        env["GORACE"] = "halt_on_error=1 exitcode=66"
+        rc, txt = sh([HARNESS_RACE_BIN, "run", stream, "-in", ops_path, "-out", out, "-resolved", res], env=env, timeout=timeout * 3)
+        return rc, txt, out, res
     # the real code runs in a child with an address-space cap: a ballooning allocation is then a
     # crash of the child (reported with the op that caused it), not a dead machine
     rc, txt = sh([HARNESS_BIN, "run", stream, "-in", ops_path, "-out", out, "-resolved", res], env=env, timeout=timeout,
@@ -460,7 +476,9 @@ def run_stream(prop_id, cfg, scfg, seed, tier, log, stats):
             tag = f"{prop_id}-{stream}"
             if dkeys == ["#crash"]:
                 shrunk = body
-                bad, simpl, smodel, sres = True, ["#crash rc=%d: %s" % (rc, txt[-1500:])], [], []
+                m = re.search(r"^(panic:|fatal error:|WARNING: DATA RACE).*(?:\n.*){0,24}", txt, flags=re.M)
+                head = m.group(0) if m else txt[:800]
+                bad, simpl, smodel, sres = True, ["#crash rc=%d: %s\n...\n%s" % (rc, head, txt[-600:])], [], []
             elif dkeys[0].startswith("#specviol:"):
                 bad0, *_ = rerun_case(stream, hdr, body, keys, tag, want=dkeys)
                 shrunk = ddmin(stream, hdr, body, keys, tag, want=dkeys) if bad0 and len(body) > 1 else body
@@ -577,8 +595,15 @@ def check(prop_id, tier, seed):
     if not h_ok:
         broken.append("harness no longer builds against /repo (hooked function changed?): " + h_out[-1500:])
     if h_ok and os.path.exists(DRIVER_BIN):
+        USE_RACE["on"] = False
+        if tier == "thorough" and cfg.get("race"):
+            with Lock("build"):
+                USE_RACE["on"] = build_race_harness(log)
+            if not USE_RACE["on"]:
+                broken.append("the harness does not build with -race")
         for scfg in cfg["streams"]:
             violations += run_stream(prop_id, cfg, scfg, seed, tier, log, stats)
+        USE_RACE["on"] = False
     failing = [v for v in violations if v["kind"] == "failing-input"]
     other = [v for v in violations if v["kind"] != "failing-input"]
     for v in other:
